@@ -62,6 +62,26 @@ fn domains(rng: &mut Rng) {
             let j = rng.below(n);
             vs.swap(i, j);
         }
+        // disorder that is tiny in absolute terms: a one-ulp backward step, or the whole vector at a
+        // magnitude where every difference is far below machine epsilon
+        if n >= 2 && rng.chance(0.3) {
+            match rng.below(3) {
+                0 => {
+                    let k = 1 + rng.below(n - 1);
+                    vs[k] = next_down(vs[k - 1]);
+                }
+                1 => {
+                    let f = *rng.pick(&[1e-16, 1e-18, 1e-30, 1e-300]);
+                    for x in vs.iter_mut() {
+                        *x *= f;
+                    }
+                }
+                _ => {
+                    let k = 1 + rng.below(n - 1);
+                    vs[k] = vs[k - 1] - vs[k - 1].abs().max(1e-3) * *rng.pick(&[1e-16, 3e-16, 1e-15, 1e-12]);
+                }
+            }
+        }
         let r = DiscreteDomain::try_from(vs.clone());
         let mut v = Verdict::new();
         v.require(r.is_ok() == sorted_finite(&vs), "try_from.accepts_iff_sorted", || format!("{vs:?}"));
@@ -158,6 +178,19 @@ fn series(rng: &mut Rng) {
         let mut o = Tok::new();
         o.w(if r.is_ok() { "ok" } else { "err" });
         emit("series.try_new", &i, &o, &v);
+        // abscissae with a one-ulp backward step are not ascending: an error, never a series
+        if n >= 2 && rng.chance(0.3) {
+            let mut bad = gen_xs(rng, n, true);
+            let k = 1 + rng.below(n - 1);
+            bad[k] = next_down(bad[k - 1]);
+            let ys = gen_ys(rng, n);
+            let mut v = Verdict::new();
+            match Series1::try_new(bad.clone(), ys.clone()) {
+                Err(_) => {}
+                Ok(sb) => v.require(false, "try_new.rejects_abscissae_with_a_backward_step", || format!("{bad:?} accepted; interpolate at the stored knot {} gives {} (stored {})", bad[k], sb.interpolate(bad[k]), ys[k])),
+            }
+            emit_oracle_only("series.try_new", &Tok::new(), &Tok::new(), &v);
+        }
         if let Ok(s) = r {
             // scaling by any factor (negative reverses), shifting
             let sx = *rng.pick(&[-2.0, -1.0, -0.5, 0.5, 1.0, 3.0, 0.0]);
